@@ -35,8 +35,14 @@ pub enum Shape {
     RandomNoSyn,
     /// timestamped ACK segments only (uptime tracker)
     TimestampedAcks,
+    /// SYN, upgrade request, `101 Switching Protocols`, then endless server data (a WebSocket-like connection)
+    UpgradeThenEndlessData,
+    /// SYN, request with `Expect: 100-continue`, `100 Continue`, then endless server data
+    ContinueThenEndlessData,
 }
-pub const SHAPES: [Shape; 12] = [
+pub const SHAPES: [Shape; 14] = [
+    Shape::UpgradeThenEndlessData,
+    Shape::ContinueThenEndlessData,
     Shape::ManyRecordsPerSegment,
     Shape::HttpHeadNeverCompletes,
     Shape::SynThenBinary,
@@ -114,6 +120,13 @@ impl ShapeGen {
             (Shape::RequestThenEndlessBody, _) => {
                 let p = self.filler(0x41);
                 self.pkt(true, fr::ACK | fr::PSH, p)
+            }
+            (Shape::UpgradeThenEndlessData, 1) | (Shape::ContinueThenEndlessData, 1) => self.pkt(true, fr::ACK | fr::PSH, req.head()),
+            (Shape::UpgradeThenEndlessData, 2) => self.pkt(false, fr::ACK | fr::PSH, b"HTTP/1.1 101 Switching Protocols\r\nUpgrade: websocket\r\nConnection: Upgrade\r\n\r\n".to_vec()),
+            (Shape::ContinueThenEndlessData, 2) => self.pkt(false, fr::ACK | fr::PSH, b"HTTP/1.1 100 Continue\r\n\r\n".to_vec()),
+            (Shape::UpgradeThenEndlessData, _) | (Shape::ContinueThenEndlessData, _) => {
+                let p = self.filler(0x81);
+                self.pkt(false, fr::ACK | fr::PSH, p)
             }
             (Shape::ExchangeThenEndlessResponse, 1) => self.pkt(true, fr::ACK | fr::PSH, req.head()),
             (Shape::ExchangeThenEndlessResponse, 2) => self.pkt(false, fr::ACK | fr::PSH, b"HTTP/1.1 200 OK\r\nServer: nginx\r\nContent-Type: video/mp4\r\n\r\n".to_vec()),
@@ -283,7 +296,7 @@ pub fn run(ctx: &Ctx) {
     // measured single-threaded per case (counters are per thread), cases spread over the rayon pool
     ctx.run_indexed(
         "single-connection-histories",
-        "12 traffic shapes (many small non-ClientHello handshake records per segment, HTTP-looking head that never completes, SYN then binary, request then endless body, exchange then endless response, endless server data, ClientHello then application data, non-ClientHello handshake record then application data, huge declared record length, endless small non-ClientHello records, random bytes without SYN, timestamped ACKs) x {TCP, HTTP, TLS, unified} analyzer x N segments of 700 bytes (quick N = 3000; thorough N = 120000; shapes inside the recorded quadratic HTTP finding are capped at 1200 / 4000); oracle: counting allocator, no growth of retained bytes and no growth of bytes allocated per packet with the packet index; non-trivial: every history",
+        "14 traffic shapes (101 Switching Protocols resp. 100 Continue then endless server data, many small non-ClientHello handshake records per segment, HTTP-looking head that never completes, SYN then binary, request then endless body, exchange then endless response, endless server data, ClientHello then application data, non-ClientHello handshake record then application data, huge declared record length, endless small non-ClientHello records, random bytes without SYN, timestamped ACKs) x {TCP, HTTP, TLS, unified} analyzer x N segments of 700 bytes (quick N = 3000; thorough N = 120000; shapes inside the recorded quadratic HTTP finding are capped at 1200 / 4000); oracle: counting allocator, no growth of retained bytes and no growth of bytes allocated per packet with the packet index; non-trivial: every history",
         true,
         nc,
         |i, st| {
